@@ -135,7 +135,9 @@ L2F(st, o, n) ==
 RECURSIVE Exp(_, _, _, _, _)
 Exp(st, o, parts, i, bo) ==
   LET p    == parts[i]
-      f0   == L2F(st, o, p)
+      \* an attribute of a class (i > 1) is looked up in the class and its bases, never in the scopes enclosing the class
+      f0   == IF i # 1 /\ Cls(st, o) = "Class" /\ p \notin DOMAIN st.cont[o] /\ p \notin DOMAIN st.alias[o]
+                THEN <<P(p)>> ELSE L2F(st, o, p)
       miss == f0 = <<P(p)>> /\ i # 1
       inh  == IF miss /\ Cls(st, o) = "Class" THEN FindIn(st, o, p, bo) ELSE NoObj
       notfound == miss /\ inh = NoObj
